@@ -146,15 +146,65 @@ fn wrong_length(art: Art, n: usize) -> bool {
     }
 }
 
-pub fn run_c09(cx: &mut Cx) {
+/// One run per batch: GRIND for honest points at the edge of the coordinate range.  Four threads
+/// walk k*G until they meet a point of G1 whose x-coordinate starts with the three leading octets
+/// of the field modulus (1a 01 11: about one point in 1.9 million); such a point is as valid as any
+/// other and every decoder must accept its encoding (as the A of a signature, as a commitment).
+fn coordinate_edge(cx: &mut Cx) {
+    use bls12_381_plus::{G1Affine, G1Projective, Scalar};
+    use group::Curve;
+    let per_thread: u64 = if cx.thorough { 3_000_000 } else { 900_000 };
+    let nodes: Vec<zksim_core::sim::NodeId> = (0..4).map(|i| cx.node(&format!("grinder{i}"))).collect();
+    let steps: Vec<(zksim_core::sim::NodeId, Box<dyn FnOnce() -> Option<[u8; 48]> + Send>)> = nodes.iter().enumerate().map(|(i, &n)| {
+        let f: Box<dyn FnOnce() -> Option<[u8; 48]> + Send> = Box::new(move || {
+            let g = G1Projective::GENERATOR;
+            let mut p = g * Scalar::from(1_000_003u64 + i as u64 * 5_000_011);
+            let mut buf = vec![G1Projective::IDENTITY; 2048];
+            let mut aff = vec![G1Affine::identity(); 2048];
+            let mut done = 0u64;
+            while done < per_thread {
+                for slot in buf.iter_mut() { *slot = p; p += g; }
+                G1Projective::batch_normalize(&buf, &mut aff);
+                for a in &aff { let c = a.to_compressed(); if c[0] & 0x1f == 0x1a && c[1] == 0x01 && c[2] == 0x11 { return Some(c); } }
+                done += 2048;
+            }
+            None
+        });
+        (n, f)
+    }).collect();
     let victim = cx.node("victim");
     let suite = Suite::from_idx(cx.run_index);
+    cx.burst(steps, "walk k*G", move |cx, outs| {
+        cx.add("n.points_walked", 4 * per_thread);
+        let found: Vec<[u8; 48]> = outs.into_iter().filter_map(|st| st.out.ok().flatten()).collect();
+        if found.is_empty() { cx.count("probe.coordinate_edge_grind_gave_up"); return; }
+        for c in found {
+            cx.count("probe.honest_point_with_x_just_below_the_field_modulus");
+            for art in [Art::Sig, Art::Commitment] {
+                let bytes: Bytes = match art { Art::Sig => { let mut b = c.to_vec(); b.extend_from_slice(&[0u8; 31]); b.push(1); b } _ => { let mut b = c.to_vec(); b.extend_from_slice(&[0u8; 31]); b.push(1); b.extend_from_slice(&[0u8; 31]); b.push(2); b } };
+                let b2 = bytes.clone();
+                cx.step(victim, "decode-edge-point", StepOpts::default(), move || api::decode_reencode(suite, art, &b2), move |cx, st| {
+                    cx.eval(&[b"edge-point", art.name().as_bytes(), &bytes], true);
+                    match st.out { Ok(Ok(r)) if r == bytes => cx.count("verdict.MustAccept.accept"), other => cx.violation("C09", format!("{}/rejected_valid_encoding/x-coordinate-just-below-p", art.name()), format!("{} -> {other:?}", hex::encode(&bytes[..48]))) }
+                });
+            }
+        }
+    });
+    cx.run();
+}
+
+pub fn run_c09(cx: &mut Cx) {
+    // (run 48 of every 49: the 48 runs before it enumerate the type x part x suite space)
+    if cx.run_index % 49 == 48 { return coordinate_edge(cx); }
+    let ri = cx.run_index - cx.run_index / 49;
+    let victim = cx.node("victim");
+    let suite = Suite::from_idx(ri);
     let l = 2 + cx.ch.choose("honest_L", 4) as usize;
     let m = 1 + cx.ch.choose("honest_M", 3) as usize;
     let seed = cx.run_seed;
     cx.step(victim, "honest-session", StepOpts::default(), move || make_honest(suite, seed, l, m), move |cx, st| {
         let h = match st.out { Ok(Ok(h)) => Arc::new(h), other => { cx.log(format!("honest session failed: {:?}", other.err())); return; } };
-        let part = cx.ch.forced("space_part", 24, cx.run_index / 2);
+        let part = cx.ch.forced("space_part", 24, ri / 2);
         let art = Art::ALL[(part % 8) as usize];
         let b = honest_of(&h, art);
         match part / 8 {
@@ -172,6 +222,24 @@ pub fn run_c09(cx: &mut Cx) {
                     }
                 }
                 for n in 0..b.len() { probe(cx, victim, suite, art, b[..n].to_vec(), format!("truncate:{n}"), wrong_length(art, n)); }
+                // signatures also enter the library as octet SLICES (proof_gen, blind_proof_gen take
+                // &[u8]): the decoder behind those entry points refuses every other length too
+                if art == Art::Sig || art == Art::BlindSig {
+                    for (name, f) in [("+1 zero", [b.clone(), vec![0]].concat()), ("+1 prng", [b.clone(), vec![0xa7]].concat()), ("+32", [b.clone(), vec![0; 32]].concat()), ("+80 (twice)", [b.clone(), b.clone()].concat()), ("-1", b[..b.len() - 1].to_vec()), ("-32", b[..b.len() - 32].to_vec())] {
+                        let h2 = h.clone();
+                        let blind = art == Art::BlindSig;
+                        let f2 = f.clone();
+                        cx.step(victim, "signature-slice-entry-point", StepOpts::default(), move || {
+                            let msgs = Some(h2.msgs.clone());
+                            if blind { api::blind_proof_gen(suite, &h2.pk, &f2, &h2.header, &h2.ph, &msgs, &Some(h2.committed.clone()), &Some(h2.didx.clone()), &Some(h2.dcidx.clone()), &Some(h2.blind.clone())).is_ok() }
+                            else { api::proof_gen(suite, &h2.pk, &f2, &h2.header, &h2.ph, &msgs, &Some(h2.didx.clone())).is_ok() }
+                        }, move |cx, st| {
+                            cx.eval(&[b"sig-slice", name.as_bytes(), &f], true);
+                            cx.count("fault.wrong_length_through_a_slice_entry_point");
+                            if let Ok(true) = st.out { cx.violation("C09", format!("{}/accepted_wrong_length/through-{}", art.name(), if blind { "blind_proof_gen" } else { "proof_gen" }), format!("signature octets {name} ({} octets) were accepted", f.len())); }
+                        });
+                    }
+                }
             }
             1 => {
                 for bit in 0..b.len() * 8 { let mut f = b.clone(); f[bit / 8] ^= 0x80 >> (bit % 8); probe(cx, victim, suite, art, f, format!("bitflip:{bit}"), false); }
